@@ -4,13 +4,6 @@
 #define VERIF_DATE_CORE_MORE_H
 
 /* ---------------------------------------------------------------- C08: comparison == chronological order */
-#define SGN3(a, b) ((a) < (b) ? -1 : (a) > (b) ? 1 : 0)
-/* ymcw values are not monotone in their bit pattern: dedicated comparison */
-#define PRE___ymcw_cmp(d1, d2) (V_YMCW(d1) && V_YMCW(d2))
-#define POST___ymcw_cmp(ret, d1, d2) ((ret) == (GY_YMCW(d1) != GY_YMCW(d2) ? SGN3(GY_YMCW(d1), GY_YMCW(d2)) : SGN3(GYD_YMCW(d1), GYD_YMCW(d2))))
-int __ymcw_cmp(dt_ymcw_t d1, dt_ymcw_t d2)
-CONTRACT(PRE___ymcw_cmp(d1, d2), POST___ymcw_cmp(RV, d1, d2));
-
 /* ---------------------------------------------------------------- C04: month / year arithmetic (lazy ultimo) */
 /* (y, m) + n months: 12*y + (m-1) is moved by exactly n; the day field is untouched */
 #define PRE___ymd_add_m(d, n) (L_YMD(d) && (n) >= -30000 && (n) <= 30000 && MIDX((d).y, (d).m) + (n) >= MIDX(1601, 1) && MIDX((d).y, (d).m) + (n) <= MIDX(4095, 12))
@@ -25,6 +18,14 @@ CONTRACT(PRE___ymd_add_y(d, n), POST___ymd_add_y(RV, d, n));
 #define POST___ymcw_add_m(ret, d, n) (L_YMCW(ret) && (ret).c == (d).c && (ret).w == (d).w && MIDX((ret).y, (ret).m) == MIDX((d).y, (d).m) + (n))
 static dt_ymcw_t __ymcw_add_m(dt_ymcw_t d, int n)
 CONTRACT(PRE___ymcw_add_m(d, n), POST___ymcw_add_m(RV, d, n));
+#define PRE___ymcw_add_y(d, n) (L_YMCW(d) && (n) >= -3000 && (n) <= 3000 && V_YEAR((int)(d).y + (n)))
+#define POST___ymcw_add_y(ret, d, n) (ADDY_YMCW(ret, d, n))
+static dt_ymcw_t __ymcw_add_y(dt_ymcw_t d, int n)
+CONTRACT(PRE___ymcw_add_y(d, n), POST___ymcw_add_y(RV, d, n));
+#define PRE___yd_add_y(d, n) (L_YD(d) && (n) >= -3000 && (n) <= 3000 && V_YEAR((int)(d).y + (n)))
+#define POST___yd_add_y(ret, d, n) (ADDY_YD(ret, d, n))
+static dt_yd_t __yd_add_y(dt_yd_t d, int n)
+CONTRACT(PRE___yd_add_y(d, n), POST___yd_add_y(RV, d, n));
 /* crop of the count to the last existing one */
 #define PRE___ymcw_fixup(d) (L_YMCW(d))
 #define POST___ymcw_fixup(ret, d) ((ret).y == (d).y && (ret).m == (d).m && (ret).w == (d).w && \
